@@ -276,7 +276,7 @@ impl Prop for ChainProp {
                 bytes.extend_from_slice(&o.frame());
                 bytes.push(0);
             }
-            w.push_seg(rd, &bytes, Some(Gate { pipe: wr, nuls: n_calls }));
+            w.push_seg(rd, &bytes, Some(Gate { pipe: wr, nuls: n_calls, counter: 0 }));
             w.step_cap = 50 * (bytes.len() as u64 + 300);
             (rd, wr)
         };
